@@ -99,8 +99,13 @@ class Bins:
         self.index = Idx(seg)
         self.values = TagArr(("VALUES", seg))
 
+    ANY = True           # what `.any()` of a non-empty run answers: the log2 values are arbitrary reals, all of them may be exactly 0 (the clause is run under both answers)
+
     def abs_len(self):
         return len(self.vals)
+
+    def any(self, *a, **k):
+        return bool(self.vals) and Bins.ANY
 
     def abs_binop(self, op, other, reflected):
         if isinstance(op, ast.Sub) and not reflected:
@@ -143,8 +148,9 @@ def d1(chk, prog):
                f"flags in the wrong class or unknown: {wrong}; missing: {sorted(set(cls_of) - {c for _, c in flags})}")
     # interpretation with tagged statistics
     tb = Table(chk, "right-bins", "do_segmetrics: arguments of every statistic (location / spread / interval)", fi.loc(), fi.qn)
-    for skip_low in (False, True):
+    for skip_low, any_answer in ((False, True), (True, True), (False, False)):
         W.reset()
+        Bins.ANY = any_answer
         model = Model()
         seglog = [Term.sym("L0"), Term.sym("L1"), Term.sym("L2")]
         segs = make_ga("CopyNumArray", [dict(chromosome="chr1", start=i * 100, end=i * 100 + 100, gene="-", log2=seglog[i], probes=2) for i in range(3)], {"sample_id": "S"}, index="any", exact=True)
@@ -220,7 +226,8 @@ def d1(chk, prog):
             if lo in c and not is_nan_like(c[lo].v[1]):
                 problems.append(f"{lo}[1] (segment without bins) = {c[lo].v[1]!r}, expected missing")
         keep_cols = all(same(c["log2"].v[i], seglog[i]) for i in range(3)) and list(segs.data.cols) == ["chromosome", "start", "end", "gene", "log2", "probes"] and out is not segs
-        tb.cell(ok and not problems and keep_cols, dict(skip_low=skip_low, iter_ranges_of=ev.get("iter_ranges_of"), problems=problems[:6], input_segments_untouched=keep_cols))
+        Bins.ANY = True
+        tb.cell(ok and not problems and keep_cols, dict(skip_low=skip_low, bins_all_zero=not any_answer, iter_ranges_of=ev.get("iter_ranges_of"), problems=problems[:6], input_segments_untouched=keep_cols))
     tb.done("a segment statistic is computed on the wrong bins / operand (or the input segments are altered)")
 
 
@@ -487,8 +494,16 @@ def d5(chk, prog):
         W.reset()
         model = estyping.const_model()
         model.ext["np.asarray"] = lambda it, x, *a, **k: estyping.Arr(list(x.v) if isinstance(x, estyping.Arr) else list(x))
-        model.ext["np.arange"] = lambda it, *a, **k: estyping.Arr(range(*[int(x) for x in a]))
-        model.ext["np.empty"] = lambda it, n, *a, **k: estyping.Arr([None] * int(n))
+        def np_arange(it, *a, **k):
+            if not all(isinstance(x, (int, Fr)) and not isinstance(x, bool) for x in a):
+                raise Undecided(f"np.arange{a!r}")
+            return estyping.Arr(range(*[int(x) for x in a]))
+        model.ext["np.arange"] = np_arange
+        def np_empty(it, n, *a, **k):
+            if not (isinstance(n, int) and not isinstance(n, bool)):
+                raise Undecided(f"np.empty({n!r})")
+            return estyping.Arr([None] * n)
+        model.ext["np.empty"] = np_empty
 
         def num_(x):
             return T(x).cval() if not isinstance(x, (int, Fr)) else Fr(x)
@@ -530,6 +545,8 @@ def d5(chk, prog):
         # ties: equal p-values get equal q (the step-up minimum runs over all ranks >= the first tied rank)
         for i in range(n):
             q[i] = min(q[j] for j in range(n) if ps[j] == ps[i]) if False else q[i]
+        if not isinstance(out, estyping.Arr):
+            raise AnalysisError(f"C17 p_adjust_bh: the result is not an array the exact-evaluation domain understands ({type(out).__name__}); cannot decide")
         got = [T(x).cval() if not isinstance(x, Fr) else x for x in out.v]
         tb3.cell(sorted(got) == sorted(q) and all(got[i] == q[i] or ps.count(ps[i]) > 1 for i in range(n)), dict(p=[str(x) for x in ps], got=[str(x) for x in got], want=[str(x) for x in q]))
     tb3.done("p_adjust_bh is not the Benjamini-Hochberg adjustment")
